@@ -16,6 +16,7 @@ allvars == <<kvars, vars>>
 TInit == KInit /\ tid \in 1..Len(Traces) /\ pos = 1 /\ verdict = "none"
 
 QOf(rec) == Qty(NFromQ(rec.mag), rec.ux)
+CallOf(c) == [ks |-> [j \in 1..Len(c.ks) |-> QOf(c.ks[j])], conc |-> [s \in SubstSet |-> QOf(c.conc[s])], t1 |-> QOf(c.t1)]
 Act(e) ==
     CASE e.ev = "rate_accept" -> RateAccept(e.rx, e.kux)
       [] e.ev = "k_accept"    -> KAccept(e.rx, e.kux)
@@ -24,6 +25,9 @@ Act(e) ==
       [] e.ev = "build"       -> Build
       [] e.ev = "conditions"  -> SetConditions([s \in SubstSet |-> QOf(e.conc[s])], QOf(e.t0), QOf(e.t0))
       [] e.ev = "rates"       -> PhysicalRate(e.reg, e.mode)
+      [] e.ev = "solver"      -> MakeSolver(e.reg)
+      [] e.ev = "solve"       -> Solve(CallOf(e.call))
+      [] e.ev = "validate"    -> Validate(CallOf(e.call))
       [] OTHER                -> FALSE
 
 RTol == 10
@@ -32,7 +36,15 @@ ObsClause(e) ==
     CASE e.ev = "rate_accept" -> LET x == E_RateAccept(e.rx, e.kux) IN
              IF e.accepted = x.accept THEN "" ELSE IF x.accept THEN "refused-right-dimension" ELSE "accepted-wrong-dimension"
       [] e.ev = "k_accept" -> IF E_KAccept(e.rx, e.kux).must_raise /\ e.accepted THEN "accepted-wrong-dimension" ELSE ""
-      [] e.ev \in {"system", "conditions"} -> ""
+      [] e.ev \in {"system", "conditions", "solver"} -> ""
+      \* a call on the solver object: refused iff a constant has a wrong dimension, whatever came before
+      [] e.ev = "solve" -> LET x == E_Solve(CallOf(e.call)) IN
+             IF e.accepted = x.accept THEN "" ELSE IF x.accept THEN "refused-right-dimension" ELSE "accepted-wrong-dimension"
+      [] e.ev = "validate" -> LET x == E_Validate(CallOf(e.call)) IN
+             IF e.accepted # x.accept THEN (IF x.accept THEN "refused-right-dimension" ELSE "accepted-wrong-dimension")
+             ELSE IF ~x.accept THEN ""
+             ELSE IF \E s \in Used : ~NearScaled(e.rates[s], TermsSum(x.rates[s]), TermsAbs(x.rates[s]), RTol) THEN "validate-rate"
+             ELSE ""
       [] e.ev = "build" -> IF e.accepted = E_Build.accept THEN "" ELSE "acceptance"
       [] e.ev = "rates" -> LET x == E_PhysicalRate(e.reg)  back == NumRat(x.back)  inv == BRat(back.s, back.d, back.n) IN
              IF { e.used[i] : i \in 1..Len(e.used) } # Used THEN "names"
